@@ -9,8 +9,9 @@ LEVEL = "proof"
 CONTRACTS = [F.normalize_slice, F.getitem, F.add, F.radd, F.mul, F.join, F.from_str_plain, F.fmtstr_plain_body]
 ASSUMPTIONS = [
     "fmtstr(s) == FmtStr(Chunk(s)) for a str free of 'ESC[' is no longer assumed: the real bodies of fmtstr (no formatting arguments, "
-    "parse_args inlined) and FmtStr.from_str are verified against it here (fmtstr#plain, FmtStr.from_str#plain); join's str items are "
-    "required to be free of 'ESC['",
+    "parse_args inlined) and FmtStr.from_str are verified against it here (fmtstr#plain, FmtStr.from_str#plain); join takes str items "
+    "verbatim whatever they contain (the contract used to REQUIRE them free of 'ESC[' - a precondition read off the code that hid a "
+    "defect: str items were parsed for escape sequences; repaired, see known_findings.json)",
     "PLAIN(s) := 'ESC[' does not occur in s; the lemma PLAIN(blanks ++ y) == PLAIN(y) == PLAIN(y ++ blanks) used for padded rows is "
     "validated by exhaustive evaluation (blanks <= 3, y <= 5 over {ESC, '[', ' ', 'a'}) on every run, not proved",
     "FmtStr.__len__/.s are used through their contracts here; their bodies are verified under the memo invariant in C13",
@@ -74,7 +75,7 @@ def bounded(check, tier):
     s.contract_case(F.add, dict(self=mk((1,)), other=3))
     s.contract_case(F.radd, dict(self=mk((1,)), other=None))
     s.contract_case(F.mul, dict(self=mk((1,)), other="a"))
-    pool = [FmtStr(), "", "ab", mk((1,), 65, 3), mk((1, 2), 70, 4), fmtstr("")]
+    pool = [FmtStr(), "", "ab", mk((1,), 65, 3), mk((1, 2), 70, 4), fmtstr(""), "\x1b[31mq"]
     seps = [mk((1,)), mk(()), mk((1, 1)), fmtstr("")]
     for sep in seps:
         for n in range(0, (5 if deep else 4)):
